@@ -7,6 +7,8 @@ pub mod c09;
 pub mod c10;
 pub mod c11;
 pub mod c13;
+pub mod c14;
+pub mod c15;
 
 /// entry for internal child-process sub-commands
 pub fn child_main(args: &[String]) -> i32 {
